@@ -20,6 +20,9 @@ ap.add_argument("--simulate", default=None)
 ap.add_argument("--show", type=int, default=3)
 ap.add_argument("--salt", type=int, default=0)
 ap.add_argument("--twin", default=None)
+ap.add_argument("--storage", default="notes")
+ap.add_argument("--blamefmt", action="store_true")
+ap.add_argument("--stats", action="store_true")
 ap.add_argument("--timeout", type=int, default=600)
 ap.add_argument("--module", default="MC_Core.tla")
 a = ap.parse_args()
@@ -34,7 +37,7 @@ print("gen: generated=%d distinct=%d depth=%d behaviours=%d errors=%s (%.1fs)" %
     res["generated"], res["distinct"], res["depth"], len(beh), res["errors"][:2], time.time() - t0))
 sel, ntags = engine.select(beh, a.n, a.seed)
 print("selected %d of %d behaviours, %d tag vectors" % (len(sel), len(beh), ntags))
-cfg = dict(consts, render=a.render, filefam=a.filefam, salt=a.salt)
+cfg = dict(consts, render=a.render, filefam=a.filefam, salt=a.salt, storage=a.storage, blamefmt=a.blamefmt, stats=a.stats)
 if a.twin:
     cfg["twin"] = json.loads(a.twin)
 t0 = time.time()
